@@ -1157,8 +1157,17 @@ def var_ranges(fn, var, bits, signed, rhs_range=None):
 TOP = object()
 
 
+class Sym(str):
+    """symbolic non-null value (the address/content of a named field); truthy,
+    equal only to the same symbol"""
+    __slots__ = ()
+
+
+SYM_FIELDS = [False]
+
+
 def _eval(e, env, prog=None):
-    """evaluate expression under env: {estr: int}; returns int or TOP"""
+    """evaluate expression under env: {estr: int}; returns int, Sym or TOP"""
     e = unwrap(e)
     if not isinstance(e, dict):
         return TOP
@@ -1169,12 +1178,16 @@ def _eval(e, env, prog=None):
     if v is not None:
         return v
     k = e.get('k')
+    if k == 'mem' and SYM_FIELDS[0]:
+        return Sym(s)
     if k == 'un':
         x = _eval(e['e'], env)
         if x is TOP:
             return TOP
         if e['op'] == '!':
             return int(not x)
+        if isinstance(x, Sym):
+            return TOP
         if e['op'] == '-':
             return -x
         if e['op'] == '~':
@@ -1205,6 +1218,12 @@ def _eval(e, env, prog=None):
         if l is TOP or r is TOP:
             if op == '&' and (l == 0 or r == 0):
                 return 0
+            return TOP
+        if isinstance(l, Sym) or isinstance(r, Sym):
+            if op == '==':
+                return int(l == r) if (isinstance(l, Sym) and isinstance(r, Sym)) else (0 if (l == 0 or r == 0) else TOP)
+            if op == '!=':
+                return int(l != r) if (isinstance(l, Sym) and isinstance(r, Sym)) else (1 if (l == 0 or r == 0) else TOP)
             return TOP
         try:
             return {
@@ -1322,6 +1341,8 @@ def abstract_run(fn, init_env, tracked=None, start=None, call_effect=None, max_s
                         elif a.op == '==' and a.rs in tracked and a.lc is not None:
                             env2[a.rs] = a.lc
             elif isinstance(lab, tuple) and lab[0] == 'case':
+                if isinstance(cv, Sym):
+                    cv = TOP
                 if cv is not TOP and not (lab[1] <= cv <= lab[2]):
                     continue
                 cs = estr(b.cond)
@@ -1329,7 +1350,7 @@ def abstract_run(fn, init_env, tracked=None, start=None, call_effect=None, max_s
                     env2 = dict(env)
                     env2[cs] = lab[1]
             elif lab == 'default':
-                if cv is not TOP:
+                if cv is not TOP and not isinstance(cv, Sym):
                     # default only if no case matches
                     if any(isinstance(l2, tuple) and l2[1] <= cv <= l2[2] for (_t, l2) in b.succs):
                         continue
